@@ -207,9 +207,11 @@ def render_mod(mod):
     def type_stmt(n):
         body = ""
         if n["parent"] == "decimal64":
-            body += " fraction-digits %d;" % mod["fd"]
+            body += " fraction-digits %s;" % (mod.get("fdtext") if mod.get("fdtext") is not None else "%d" % mod["fd"])
         if n["text"] is not None:
-            body += ' %s "%s";' % (kw, n["text"])
+            q = n.get("quote", "d")      # how the argument is written: "..", '..', "" + "..", or no argument at all (text "")
+            arg = {"d": ' "%s"', "s": " '%s'", "c": ' "" + "%s"', "c2": ' "%s" + \'\'', "n": "%.0s"}[q] % n["text"]
+            body += " %s%s;" % (kw, arg)
         return "type %s {%s }" % (yname(n["parent"]), body) if body else "type %s;" % yname(n["parent"])
 
     def stmt(n):
@@ -269,10 +271,23 @@ def model_fold(mods):
         mod["_base"] = ("ok", None if isl else rng([(lo, hi)], fd))
         todo.extend((mod, n) for n in mod["nodes"])
     evals = 0
+    fdm = [mod for mod in mods if mod.get("fdtext") is not None]
+    if fdm:
+        outs = lib.run_ml(["asrangeint %s 1 18" % hexs(mod.get("fdraw", mod["fdtext"])) for mod in fdm])
+        for mod, o in zip(fdm, outs):
+            t = o.split()
+            mod["_fd"] = "skip" if t[0] not in ("ok", "err") else "err" if t[0] == "err" else "ok"
+            if t[0] == "ok":
+                mod["fd"] = int(t[1])
     while todo:
         batch, rest = [], []
         for mod, n in todo:
             pm = mod["_base"] if n["_p"] is None else n["_p"].get("m")
+            if n["parent"] == "decimal64" and mod.get("_fd", "ok") != "ok":
+                pm = (mod["_fd"],)       # the fraction-digits statement itself is rejected by the model (asRangeInt 1 18)
+                if pm[0] == "err":
+                    n["m"] = pm
+                    continue
             if pm is None:
                 rest.append((mod, n))
             elif pm[0] != "ok":
@@ -300,6 +315,7 @@ def model_fold(mods):
             n.pop("_p", None)
             n.pop("_len", None)
         mod.pop("_base", None)
+        mod.pop("_fd", None)
     return evals
 
 
@@ -388,7 +404,7 @@ def compare_mod(mod, goline):
     for ri, r in enumerate(j["runs"]):
         if mod["reject"] is not None:
             if not r["errors"]:
-                return "run %d: restriction on '%s' is an error in the model (malformed, bounds out of order, or not within its parent's set) but Process reported no error" % (ri, mod["reject"])
+                return "run %d: type '%s' is an error in the model (restriction malformed / empty, bounds out of order, not within its parent's set, or fraction-digits outside 1..18) but Process reported no error" % (ri, mod["reject"])
             continue
         if r["errors"]:
             return "run %d: model accepts every restriction, Process reported %s" % (ri, r["errors"][:2])
@@ -836,9 +852,53 @@ def rnd_leaf(i):
     return i % 3 != 0     # every third one as a typedef
 
 
+def fixed_empty_and_fd():
+    out = []
+    # empty / absent restriction argument: on every kind, on a builtin, in a typedef, on a restricted typedef, in a union member
+    for kind in list(INT_KINDS) + list(LEN_KINDS) + ["decimal64"]:
+        fd = 2 if kind == "decimal64" else 0
+        for q in ("d", "s", "c", "c2", "n"):
+            for shape in range(5):
+                nodes = [dict(name="whole", parent=kind, text=None if shape % 2 else "1..10", leaf=False),
+                         dict(name="see", parent="whole", text=None, leaf=True)]
+                if shape == 0:
+                    nodes.append(dict(name="l", parent="whole", text="", quote=q, leaf=True))
+                elif shape == 1:
+                    nodes.append(dict(name="l", parent=kind, text="", quote=q, leaf=True))
+                elif shape == 2:
+                    nodes += [dict(name="td", parent="whole", text="", quote=q, leaf=False), dict(name="l", parent="td", text=None, leaf=True)]
+                elif shape == 3:
+                    nodes += [dict(name="u.p", parent="whole", text=None, leaf=False, member=True),
+                              dict(name="u.m", parent="whole", text="", quote=q, leaf=False, member=True),
+                              dict(name="u", parent=None, text=None, leaf=True, union=["u.p", "u.m"])]
+                else:
+                    nodes += [dict(name="u.m", parent="whole", text="", quote=q, leaf=False, member=True),
+                              dict(name="u.p", parent=kind, text=None, leaf=False, member=True),
+                              dict(name="u", parent=None, text=None, leaf=False, union=["u.m", "u.p"]), dict(name="l", parent="u", text=None, leaf=True)]
+                out.append(dict(name="f_em%d" % len(out), kind=kind, fd=fd, nodes=nodes))
+        # blank-only and separator-only arguments
+        for tx in (" ", "|", "..", " | "):
+            out.append(dict(name="f_em%d" % len(out), kind=kind, fd=fd, nodes=[
+                dict(name="whole", parent=kind, text="1..10", leaf=False), dict(name="l", parent="whole", text=tx, leaf=True)]))
+    # fraction-digits outside 1..18, including the values that are 1..18 modulo 256 / 65536
+    fds = [str(v) for v in list(range(-2, 22)) + [127, 128, 255, 256, 257, 258, 265, 273, 274, 275, 511, 512, 513, 514, 530, 531, 65535, 65536,
+                                                 65537, 65538, 65554, 4294967297, 4294967298, 18446744073709551617, 18446744073709551618,
+                                                 -238, -239, -254, -255, -256, -257, -65534, 300]]
+    fds += ["+2", "02", "018", "010", "2.0", "", " 2", "2 ", "+19", "-0", "00"]
+    for ft in fds:
+        for shape in range(3):
+            txt = '"%s"' % ft if (not ft or " " in ft or ft[0] in "+-") else ft
+            whole_text = (None, "1..2", "min..max")[shape]
+            nodes = [dict(name="whole", parent="decimal64", text=whole_text, leaf=shape == 1)]
+            if shape != 1:
+                nodes += [dict(name="see", parent="whole", text=None, leaf=True), dict(name="l", parent="whole", text="1", leaf=True)]
+            out.append(dict(name="f_fd%d" % len(out), kind="decimal64", fd=0, fdtext=txt, fdraw=ft, nodes=nodes))
+    return out
+
+
 def run_modules(res, tier, seed):
     rnd = random.Random(seed * 7919 + 10)
-    mods = fixed_families() + fixed_symmetric() + fixed_signs() + fixed_scoped_union() + fixed_long_fraction() + [gen_family(rnd, i) for i in range(700 if tier == "quick" else 12000)]
+    mods = fixed_families() + fixed_symmetric() + fixed_signs() + fixed_scoped_union() + fixed_long_fraction() + fixed_empty_and_fd() + [gen_family(rnd, i) for i in range(700 if tier == "quick" else 12000)]
     for i in range(250 if tier == "quick" else 4000):
         mods += gen_symmetric(rnd, i)
     for i in range(200 if tier == "quick" else 3000):
@@ -860,7 +920,7 @@ def run_modules(res, tier, seed):
             if mism <= 3:
                 res.violation("resolved range/length of a module differs from the proved model folded along the derivation chain: %s\n%s"
                               % (d, render_mod(mod)[:1500]),
-                              dict(kind="module", module=dict(name=mod["name"], kind=mod["kind"], fd=mod["fd"], scopes=mod.get("scopes"),
+                              dict(kind="module", module=dict(name=mod["name"], kind=mod["kind"], fd=mod["fd"], scopes=mod.get("scopes"), fdtext=mod.get("fdtext"), fdraw=mod.get("fdraw"),
                                                                layout=mod.get("layout"),
                                                                nodes=[{k: v for k, v in n.items() if k != "m"} for n in mod["nodes"]])))
     return dict(modules=len(mods), model_links=evals, restrictions_checked=restr, leaves_compared=leaves, modules_with_one_rejected=rejected,
@@ -869,7 +929,9 @@ def run_modules(res, tier, seed):
                      "interior gaps, and sets symmetric around zero restricted to one end / a sign-flipped part with grandchildren legal only "
                      "in the wider set; typedefs of the same name in sibling scopes (container, list, grouping, rpc input/output) with disjoint sets "
                      "and the same restriction texts in every scope; restrictions inside union members (leaf and typedef unions) before/after an "
-                     "unrestricted member of the same base, some of them in error; several leaves/typedefs restrict DIFFERENT parents with byte-identical texts (numerals and min/max), statement "
+                     "unrestricted member of the same base, some of them in error; empty / absent / blank restriction arguments in every quoting form "
+                     "on every kind (builtin, typedef, restricted typedef, union member); decimal64 with fraction-digits outside 1..18 incl. values "
+                     "that are 1..18 modulo 2^8 / 2^16 / 2^32 / 2^64 (decided by the model's asRangeInt 1 18); several leaves/typedefs restrict DIFFERENT parents with byte-identical texts (numerals and min/max), statement "
                      "order varied; each module is parsed once and Process is run twice in one Modules value; model = Range.parseChildRanges folded "
                      "along each chain from the builtin base; Process error <=> the model rejects the (single) offending restriction; otherwise every "
                      "leaf's resolved part list equals the model's by value; bounds with malformed sign combinations (every string over +,- of length 0..3, "
